@@ -10,7 +10,9 @@
    [sched_ok cap p ops] = after every next() of the schedule the lead is <= cap). *)
 Require Import List ZArith Arith.
 From Dasp Require Import Base.Res Base.ListX Ring.Bounded Ring.BoundedSpec Ring.BoundedProofs
-  Signal.Fork Signal.ForkSpec Signal.ForkProofs Signal.ForkExamples.
+  Signal.Fork Signal.ForkSpec Signal.ForkProofs Signal.ForkExamples
+  Signal.SigGenPrim Signal.ForkGenGlue Signal.ForkGenEquiv Signal.ForkGenExamples.
+From DaspGen Require Import RingGen ForkGen.
 Import ListNotations.
 
 (* One next() on either branch, from every valid shared state (every capacity >= 1, every
@@ -119,3 +121,57 @@ Theorem c12_fork_rejects_nonempty : forall (A : Type) (s : source A) (rb : bound
   len rb <> 0 -> fork s rb = Panic PAssert.
 Proof. exact @fork_nonempty. Qed.
 Print Assumptions c12_fork_rejects_nonempty.
+
+(* ---- the tie to the source -------------------------------------------------------------------
+   gen/ForkGen.v is REGENERATED from dasp_signal/src/lib.rs by translate/sig2coq.py on every run of the check: Signal::fork,
+   the constants Fork::A / B, Fork::by_rc / by_ref, and -- from the body of the macro define_branch!, expanded for its two
+   invocations -- next / pending_frames of BranchRcA, BranchRefA, BranchRcB, BranchRefB, which inherit is_exhausted from
+   trait Signal's default method (also regenerated).  Its ring-buffer calls are the generated methods of gen/RingGen.v
+   (regenerated from dasp_ring_buffer/src/lib.rs, c06_gen_bounded_agrees), its source signal is abstract, and Fork /
+   every branch handle is represented by the one shared state they point to (RefCell / Rc / & as state threading).
+   Instantiated with the hand model's source ([src_next], [pulls]) every generated definition equals the hand model's, for
+   ALL inputs -- valid states or not, including which panic / UB comes out; all four branch types are the hand model's
+   [next] / [pending_frames] at their constant.  ([to_g]/[of_g]: the two record representations of ForkShared; [gen_fstep]
+   / [gen_frun]: the interpreter over the generated methods, dispatching on which pair of branch types the last split
+   handed out, Signal/ForkGenGlue.v; [mode_after]: that pair after an operation.) *)
+Theorem c12_gen_agrees : forall (A : Type),
+  ((@Fork_A = BrA /\ @Fork_B = BrB) /\
+   (forall (s : source A) (rb : bounded A), Signal_fork s rb = rmap to_g (fork s rb)) /\
+   (forall g : fork_g (source A) A, Fork_by_rc g = Ok (to_g (by_rc (of_g g)), to_g (by_rc (of_g g)))) /\
+   (forall g : fork_g (source A) A, Fork_by_ref g = Ok (g, (to_g (by_ref (of_g g)), to_g (by_ref (of_g g))))) /\
+   (forall g : fork_g (source A) A,
+      BranchRcA_next (@src_next A) g = rmap (fun r => (to_g (fst r), snd r)) (next BrA (of_g g))) /\
+   (forall g : fork_g (source A) A,
+      BranchRefA_next (@src_next A) g = rmap (fun r => (to_g (fst r), snd r)) (next BrA (of_g g))) /\
+   (forall g : fork_g (source A) A,
+      BranchRcB_next (@src_next A) g = rmap (fun r => (to_g (fst r), snd r)) (next BrB (of_g g))) /\
+   (forall g : fork_g (source A) A,
+      BranchRefB_next (@src_next A) g = rmap (fun r => (to_g (fst r), snd r)) (next BrB (of_g g))) /\
+   (forall g : fork_g (source A) A, BranchRcA_pending_frames g = Ok (pending_frames BrA (of_g g))) /\
+   (forall g : fork_g (source A) A, BranchRefA_pending_frames g = Ok (pending_frames BrA (of_g g))) /\
+   (forall g : fork_g (source A) A, BranchRcB_pending_frames g = Ok (pending_frames BrB (of_g g))) /\
+   (forall g : fork_g (source A) A, BranchRefB_pending_frames g = Ok (pending_frames BrB (of_g g))) /\
+   (forall (g : fork_g (source A) A) (x : bool),
+      BranchRcA_is_exhausted g = Ok (branch_is_exhausted x (of_g g)) /\
+      BranchRefA_is_exhausted g = Ok (branch_is_exhausted x (of_g g)) /\
+      BranchRcB_is_exhausted g = Ok (branch_is_exhausted x (of_g g)) /\
+      BranchRefB_is_exhausted g = Ok (branch_is_exhausted x (of_g g)))) /\
+  (forall rc (g : fork_g (source A) A) (o : fop),
+     gen_fstep (@src_next A) (@pulls A) rc g o =
+     rmap (fun r => (mode_after rc o, to_g (fst r), snd r)) (fstep (of_g g) o)) /\
+  (forall (ops : list fop) rc (g : fork_g (source A) A),
+     gen_frun (@src_next A) (@pulls A) rc g ops =
+     rmap (fun r => (fold_left mode_after ops rc, to_g (fst r), snd r)) (frun (of_g g) ops)).
+Proof. exact @gen_fork_agrees. Qed.
+Print Assumptions c12_gen_agrees.
+
+(* ... so the schedule theorem holds of the interpreter over the regenerated methods, whichever pair of branch types
+   (by_ref or by_rc) the schedule starts with. *)
+Theorem c12_gen_schedule : forall (A : Type) (ops : list fop) (rc : bool) (g : fork_g (source A) A),
+  FInv (of_g g) -> sched_ok (max_len (fg_ring_buffer g)) (pos_of (of_g g)) ops ->
+  exists g' vs, gen_frun (@src_next A) (@pulls A) rc g ops = Ok (fold_left mode_after ops rc, g', vs) /\
+    FInv (of_g g') /\ max_len (fg_ring_buffer g') = max_len (fg_ring_buffer g) /\
+    sfn (fg_signal g') = sfn (fg_signal g) /\
+    spec_run (sfn (fg_signal g)) (pos_of (of_g g)) ops = (pos_of (of_g g'), vs).
+Proof. exact @gen_frun_refines. Qed.
+Print Assumptions c12_gen_schedule.
